@@ -10,7 +10,8 @@
 //! boundary, with a transport whose snapshot push fails `fail` times and then succeeds; the harness plays the Raft
 //! loop for the events the worker emits (`SnapshotPushCompleted` → `init_peers_next_index_and_match_index`,
 //! `handle_snapshot_push_completed`), tokio time is paused.
-//!   case  : `k=worker first=<F> last=<L> snap=<S|-> next=<n> base=<ms> cap=<ms> fail=<k>|h<dt>;h<dt>;…`
+//!   case  : `k=worker first=<F> last=<L> snap=<S|-> next=<n> base=<ms> cap=<ms> fail=<k>|h<dt>;b;h<dt>;…`
+//!           (`b` = the peer's ack stream breaks: stream_broken + PeerStreamError → next_index := match_index + 1)
 //!   output: per heartbeat round `<calls>.<peer next_index>`, calls = `Sf` (push attempted, failed) | `Sk` (push
 //!           succeeded) | `A<prev_log_index>` (AppendEntries handed to the peer's stream) | `-` (nothing reached the peer)
 //!
@@ -385,7 +386,7 @@ async fn settle() {
 }
 
 async fn exec_worker(f: &std::collections::HashMap<String, String>, ops: &str) -> String {
-    use d_engine_proto::server::replication::AppendEntriesRequest;
+    use d_engine_proto::server::replication::{AppendEntriesRequest, AppendEntriesResponse};
     use std::sync::Mutex;
     let g = |k: &str| -> u64 { f[k].parse().unwrap() };
     let (first, last, next0, base, cap, fail) = (g("first"), g("last"), g("next"), g("base"), g("cap"), g("fail"));
@@ -422,15 +423,20 @@ async fn exec_worker(f: &std::collections::HashMap<String, String>, ops: &str) -
     let calls: Arc<Mutex<Vec<String>>> = Arc::new(Mutex::new(vec![]));
     let streams: Arc<Mutex<Vec<mpsc::Receiver<AppendEntriesRequest>>>> = Arc::new(Mutex::new(vec![]));
     let remaining = Arc::new(Mutex::new(fail));
+    type AckTx = mpsc::Sender<std::result::Result<AppendEntriesResponse, tonic::Status>>;
+    let acks: Arc<Mutex<Vec<AckTx>>> = Arc::new(Mutex::new(vec![]));
     let mut transport = MockTransport::<WT>::new();
     {
         let streams = streams.clone();
+        let acks = acks.clone();
         transport.expect_open_replication_stream().returning(move |_, _, _| {
             let (tx, rx) = mpsc::channel(128);
             streams.lock().unwrap().push(rx);
+            let (ack_tx, ack_rx) = mpsc::channel::<std::result::Result<AppendEntriesResponse, tonic::Status>>(16);
+            acks.lock().unwrap().push(ack_tx);
             Ok(d_engine_core::ReplicationStream {
                 sender: tx,
-                receiver: Box::pin(futures::stream::pending()),
+                receiver: Box::pin(tokio_stream::wrappers::ReceiverStream::new(ack_rx)),
             })
         });
     }
@@ -478,13 +484,26 @@ async fn exec_worker(f: &std::collections::HashMap<String, String>, ops: &str) -
     let (etx, _erx) = mpsc::channel::<d_engine_core::InboundEvent>(4);
     let mut out: Vec<String> = vec![];
     for op in ops.split(';').filter(|s| !s.is_empty()) {
-        let dt: u64 = op.strip_prefix('h').expect("op").parse().unwrap();
-        tokio::time::advance(std::time::Duration::from_millis(dt)).await;
-        let _ = l.tick(&itx, &etx, &ctx).await;
-        settle().await;
+        if op == "b" {
+            // the peer's ack stream fails: the worker's recv task sets stream_broken and reports PeerStreamError
+            let last_ack = acks.lock().unwrap().last().cloned();
+            if let Some(a) = last_ack {
+                let _ = a.send(Err(tonic::Status::unavailable("stream reset"))).await;
+            }
+            settle().await;
+        } else {
+            let dt: u64 = op.strip_prefix('h').expect("op").parse().unwrap();
+            tokio::time::advance(std::time::Duration::from_millis(dt)).await;
+            let _ = l.tick(&itx, &etx, &ctx).await;
+            settle().await;
+        }
         // the Raft loop's handling of what the worker reported (raft.rs handle_internal_event)
         while let Ok(ev) = irx.try_recv() {
-            if let InternalEvent::SnapshotPushCompleted { peer_id, success } = ev {
+            if let InternalEvent::PeerStreamError { peer_id } = ev {
+                // RaftRole::handle_peer_stream_error
+                let m = l.match_index(peer_id).unwrap_or(0);
+                let _ = l.update_next_index(peer_id, m + 1);
+            } else if let InternalEvent::SnapshotPushCompleted { peer_id, success } = ev {
                 if success {
                     let last_id = ctx.raft_log().last_entry_id();
                     let _ = l.init_peers_next_index_and_match_index(last_id, vec![peer_id]);
@@ -658,7 +677,13 @@ fn gen_worker(r: &mut Rng) -> String {
     let fail = r.below(5);
     let n = 2 + r.below(10);
     let ops: Vec<String> = (0..n)
-        .map(|_| format!("h{}", match r.below(6) { 0 => 2, 1 => base, 2 => base * 2 + 1, 3 => cap, 4 => cap + 2, _ => 2 + r.below(2 * cap) }))
+        .map(|i| {
+            if i > 0 && r.chance(1, 7) {
+                "b".to_string()
+            } else {
+                format!("h{}", match r.below(6) { 0 => 2, 1 => base, 2 => base * 2 + 1, 3 => cap, 4 => cap + 2, _ => 2 + r.below(2 * cap) })
+            }
+        })
         .collect();
     format!("k=worker first={first} last={last} snap={snap} next={next} base={base} cap={cap} fail={fail}|{}", ops.join(";"))
 }
